@@ -970,6 +970,9 @@ def _struct_cases(tier):
     for sc, sx_, sy in ((("a", "b"), ("a", "b"), ("a", "b")), (("a", "b"), ("b",), ("a", 1)), (("b",), (), ("b",)), (("a", "b"), (), ()), (("b",), ("a", "b"), ("b",))):
         C.append((f"where{sc}{sx_}{sy}", "where", [("A", sc, "bool"), A(*sx_), A(*sy)], {}, (1, 2)))
     C.append(("clip", "clip", [A("a", "b"), ("lit", 0.5), ("lit", 2.0)], {}, (0,)))
+    # array-valued bounds that broadcast the clipped array to a LARGER shape
+    for sx_, slo, shi in (((), ("a",), ("a",)), (("b",), ("a", "b"), ()), (("b",), (), ("a", "b")), (("a", 1), (1, "b"), ("a", "b")), (("a", "b"), ("b",), ("a", 1)), (("a", "b"), ("a", "b"), ("a", "b"))):
+        C.append((f"clip{sx_} lo{slo} hi{shi}", "clip", [A(*sx_), A(*slo), A(*shi)], {}, (0,)))
     for shp in (("a", "b"), ("c", "a", "b"), ("a", "a")):
         for kw in ({"axis1": -1, "axis2": -2}, {"axis1": -2, "axis2": -1}, {}, {"offset": 1, "axis1": -1, "axis2": -2}, {"axis1": 0, "axis2": -1}):
             C.append((f"diagonal{shp}{kw}", "diagonal", [A(*shp)], kw, (0,)))
